@@ -244,7 +244,7 @@ def _receiver_read_at(evs, i, e):
     """Index of the assignment event at which the receiver of the call event evs[i] was read from the model, when the call
     goes through a local alias (`env = model.environment; ...; env.add_agent(x)`); None when it is read at the call."""
     f = getattr(e.node, 'func', None)
-    recv = f.value if isinstance(f, ast.Attribute) else None
+    recv = f.value if isinstance(f, ast.Attribute) else (f if isinstance(f, ast.Name) else None)
     hi = i
     found = None
     while isinstance(recv, ast.Name):
